@@ -175,6 +175,47 @@ def o_identify(ctx):
     ctx.claim('backbone-group-untouched', not bb.non_covalently_coupled_groups)
 
 
+def mk_pipeline_quiet(name, twin=None):
+    """whole pipeline with and without the coupling search (NCCG.do_prot_stat):
+    every pKa and determinant identical in every conformation; stars only
+    where a partner was registered; buried parameters so that pairs reach the swap"""
+    def body(ctx):
+        from . import micro as M
+        import propka.coupled_groups as CG
+        txt = M.text(name)
+        if twin:
+            src, dst = twin
+            txt = ''.join((l[:22] + '%4d' % dst + 'A' + l[27:] + '\n') if (l.startswith('ATOM') and int(l[22:26]) == src) else (l + '\n')
+                          for l in txt.split('\n') if l)
+        k = ctx.int('shift_thousandths', 0, 2509)
+        t = k / 1000.0 if ctx.native else k / 1000
+
+        def tr(a):
+            a.z = a.z + t
+        old = CG.NCCG.do_prot_stat
+        try:
+            CG.NCCG.do_prot_stat = False
+            off = M.run(txt, transform=tr, params=M.BURIED)
+            CG.NCCG.do_prot_stat = True
+            on = M.run(txt, transform=tr, params=M.BURIED)
+        finally:
+            CG.NCCG.do_prot_stat = old
+        for cname in off.conformation_names:
+            go, gn = off.conformations[cname].groups, on.conformations[cname].groups
+            ctx.claim('same-groups', [g.label for g in go] == [g.label for g in gn])
+            for a, b in zip(go, gn):
+                ctx.claim('pka-undisturbed', eq(a.pka_value, b.pka_value), detail='%s in %s: %r vs %r' % (a.label, cname, a.pka_value, b.pka_value))
+                for kind in KINDS:
+                    da = sorted(((d.label, d.value) for d in a.determinants[kind]), key=lambda x: (x[0], float(x[1]) if not hasattr(x[1], 'e') else 0))
+                    db = sorted(((d.label, d.value) for d in b.determinants[kind]), key=lambda x: (x[0], float(x[1]) if not hasattr(x[1], 'e') else 0))
+                    ctx.claim('determinants-undisturbed', len(da) == len(db) and all(x[0] == y[0] and bool(eq(x[1], y[1])) for x, y in zip(da, db)),
+                              detail='%s %s: %r vs %r' % (a.label, kind, da, db))
+            for g in gn:
+                for h in g.non_covalently_coupled_groups:
+                    ctx.claim('coupling-symmetric', g in h.non_covalently_coupled_groups)
+    return body
+
+
 def obligations(tier):
     CGm = 'propka/coupled_groups.py:NonCovalentlyCoupledGroups.'
     code = [CGm + 'is_coupled_protonation_state_probability', CGm + 'swap_interactions', CGm + 'transfer_determinant',
@@ -201,6 +242,14 @@ def obligations(tier):
                    shims=['is_coupled_protonation_state_probability -> symbolic factor per pair (the probe itself: O1)', 'format markers off'],
                    claim_doc='each unordered pair visited once; relation symmetric; star <=> partner list non-empty; no value changed'),
     ]
+    fx = [('pair_ASP_ASP', None), ('pair_ASP_ARG', None), ('pair_ASP_ARG', (30, 29))]
+    if tier == 'thorough':
+        fx += [('pair_GLU_ARG_TYR', None), ('pair_LYS_ASP', None), ('pep8', None), ('pep8', (30, 29)), ('nterm_ASP_LYS', None)]
+    for name, twin in fx:
+        obs.append(Obligation('O4-pipeline-undisturbed[%s%s]' % (name, ',%d->%dA' % twin if twin else ''), mk_pipeline_quiet(name, twin),
+                              code=[CGm + 'identify_non_covalently_coupled_groups'] + code + ['propka/run.py:single (whole pipeline)'],
+                              bounds='micro-structure %s%s, Nmin/Nmax lowered to 6/30 (pairs reach the swap), under a symbolic grid shift; coupling search switched off vs on' % (name, ' with an insertion-coded twin residue' if twin else ''),
+                              claim_doc='every pKa and determinant identical with and without the coupling search; coupling symmetric', max_paths=5000, wall_s=170 if tier == 'quick' else 1200))
     if tier == 'thorough':
         for (q1, q2, pi) in ((-1, 1, 1), (-1, -1, 0), (1, 1, 2)):
           obs.append(Obligation('O1b-probe-with-real-folding-energy[q=%+d%+d,pattern%d]' % (q1, q2, pi), mk_swap(True, q1, q2, pi),
